@@ -272,6 +272,10 @@ func cloneOwnership(c *Ctx, rule string, only map[string]bool) {
 						return true
 					})
 				}
+				// the same on the normalised paths of the case (any loop form, any local names)
+				if !okLoop {
+					okLoop = clonesListElementwise(c, ce, cc.Body, "expr."+f.Name(), f.Name())
+				}
 				// ... or a helper of the package that clones a list element by element
 				if call, ok := v.(*ast.CallExpr); ok && len(call.Args) == 1 && nospace(call.Args[0]) == "expr."+f.Name() && c.elementwiseCloners()[callName(call)] {
 					okLoop = true
@@ -296,7 +300,6 @@ func cloneOwnership(c *Ctx, rule string, only map[string]bool) {
 		}
 	}
 }
-
 
 func c09Entrypoints(c *Ctx, g *load.G) {
 	r := c.R
@@ -348,76 +351,8 @@ func c09Effects(c *Ctx, g *load.G) {
 	// (6) duplicate removal keeps every distinct member
 	cf := load.FuncDecl(ap, "grammarOptimizer", "cleanupCharClassMatcher")
 	if cf != nil {
-		kept := map[string]bool{}
-		ast.Inspect(cf.Body, func(n ast.Node) bool {
-			is, ok := n.(*ast.IfStmt)
-			if !ok || is.Init == nil || nospace(is.Cond) != "!ok" {
-				return true
-			}
-			for _, st := range is.Body.List {
-				if as, ok := st.(*ast.AssignStmt); ok && strings.HasPrefix(nospace(as.Rhs[0]), "append("+nospace(as.Lhs[0])+",") {
-					kept[nospace(as.Lhs[0])] = true
-				}
-			}
-			return true
-		})
-		installs := map[string]bool{}
-		ast.Inspect(cf.Body, func(n ast.Node) bool {
-			if as, ok := n.(*ast.AssignStmt); ok && strings.HasPrefix(nospace(as.Lhs[0]), "chr.") && kept[nospace(as.Rhs[0])] {
-				installs[nospace(as.Lhs[0])] = true
-			}
-			return true
-		})
-		ok := kept["chars"] && kept["ranges"] && kept["unicodeClasses"] && installs["chr.Chars"] && installs["chr.Ranges"] && installs["chr.UnicodeClasses"]
-		// what is appended is the member itself: the loop element for chars and classes, the pair (Ranges[i], Ranges[i+1])
-		// for ranges; the duplicate key of a pair is built from the same two runes; the regenerated text renders the same pair
-		var badApp []string
-		inl := inlineLocals(cf, nil)
-		ast.Inspect(cf.Body, func(n ast.Node) bool {
-			switch x := n.(type) {
-			case *ast.RangeStmt:
-				if x.Value == nil {
-					return true
-				}
-				v := nospace(x.Value)
-				for _, ce := range callsIn(x.Body) {
-					if callName(ce) == "append" && len(ce.Args) >= 2 && kept[nospace(ce.Args[0])] {
-						if len(ce.Args) != 2 || nospace(ce.Args[1]) != v {
-							badApp = append(badApp, g.Where(ce.Pos())+": appends "+nospace(ce)+" for member "+v)
-						}
-					}
-				}
-			case *ast.ForStmt:
-				if x.Cond == nil || !strings.Contains(nospace(x.Cond), "len(chr.Ranges)") {
-					return true
-				}
-				for _, ce := range callsIn(x.Body) {
-					switch {
-					case callName(ce) == "append" && len(ce.Args) >= 2 && kept[nospace(ce.Args[0])]:
-						if len(ce.Args) != 3 || inl(ce.Args[1]) != "chr.Ranges[i]" || inl(ce.Args[2]) != "chr.Ranges[i+1]" {
-							badApp = append(badApp, g.Where(ce.Pos())+": the kept pair is "+nospace(ce)+", expected (chr.Ranges[i], chr.Ranges[i+1])")
-						}
-					}
-				}
-				// texts built from the pair mention both ends, low before high
-				var ends []string
-				ast.Inspect(x.Body, func(m ast.Node) bool {
-					if ix, ok := m.(*ast.IndexExpr); ok && nospace(ix.X) == "chr.Ranges" {
-						ends = append(ends, nospace(ix.Index))
-					}
-					return true
-				})
-				js := strings.Join(ends, ",")
-				if !(js == "i,i+1" || js == "i,i+1,i,i+1") {
-					badApp = append(badApp, g.Where(x.Pos())+": the loop over the range pairs reads Ranges["+js+"], expected the low end i and then the high end i+1 each time a pair is used")
-				}
-			}
-			return true
-		})
-		if len(badApp) > 0 {
-			ok = false
-		}
-		r.Check(ok, "C09-f", "G.ast.cleanupCharClassMatcher:keeps-every-distinct-member", "", g.Where(cf.Pos()), "each of the three lists is rebuilt by appending every not-yet-seen member", fmt.Sprintf("rebuilt lists %v, installed %v %s: members of a merged class are lost or altered", keysOf(kept), keysOf(installs), strings.Join(badApp, "; ")))
+		why := cleanupKeepsMembers(c, g, cf)
+		r.Check(why == "", "C09-f", "G.ast.cleanupCharClassMatcher:keeps-every-distinct-member", "", g.Where(cf.Pos()), "each of the three lists is rebuilt by appending every not-yet-seen member", why+": members of a merged class are lost or altered")
 	}
 }
 
@@ -489,4 +424,95 @@ func (c *Ctx) elementwiseCloners() map[string]bool {
 		}
 	}
 	return out
+}
+
+// elementwiseWalkers: helpers of package ast that apply Walk to every element of a list parameter, unconditionally
+// (`for i := range xs { Walk(v, xs[i]) }` in any loop form).
+func (c *Ctx) elementwiseWalkers() map[string]bool {
+	out := map[string]bool{}
+	g := c.G()
+	if g == nil {
+		return out
+	}
+	nc := c.astNorm().without("Walk")
+	for _, fd := range load.AllFuncDecls(g.Pkg("ast")) {
+		if fd.Recv != nil || fd.Body == nil || fd.Type.Params == nil || fd.Name.Name == "Walk" {
+			continue
+		}
+		var lists []string
+		for _, f := range fd.Type.Params.List {
+			if _, isSlice := f.Type.(*ast.ArrayType); isSlice {
+				for _, nm := range f.Names {
+					lists = append(lists, nm.Name)
+				}
+			}
+		}
+		if len(lists) != 1 {
+			continue
+		}
+		prm := lists[0]
+		paths := nc.normPaths(fd)
+		ok := len(paths) > 0
+		for _, p := range paths {
+			lo, hi := loopSpan(p, "range "+prm)
+			if lo < 0 {
+				ok = false
+				continue
+			}
+			walked := false
+			for i := lo + 1; i < hi && i < len(p); i++ {
+				switch p[i].Kind {
+				case "call":
+					if strings.HasPrefix(p[i].Text, "Walk(") && strings.HasSuffix(p[i].Text, ","+prm+"[#1])") {
+						walked = true
+					}
+				case "+", "branch", "return":
+					if !walked {
+						ok = false
+					}
+				}
+			}
+			if hi > lo+1 && !walked {
+				ok = false
+			}
+		}
+		if ok {
+			out[fd.Name.Name] = true
+		}
+	}
+	return out
+}
+
+// clonesListElementwise: on every normalised path of body (a case of cloneExpr), the field of the returned literal is
+// a local list that receives, in a loop over src and unconditionally, cloneExpr(src[#d]) for every element.
+func clonesListElementwise(c *Ctx, fd *ast.FuncDecl, body []ast.Stmt, src, field string) bool {
+	paths := c.astNorm().normBlock(fd, body)
+	if len(paths) == 0 {
+		return false
+	}
+	for _, p := range paths {
+		ret := lastReturn(p)
+		i := strings.Index(ret, field+":")
+		if i < 0 {
+			return false
+		}
+		local := dollarRe.FindString(ret[i+len(field)+1:])
+		if local == "" || !strings.HasPrefix(ret[i+len(field)+1:], local) {
+			return false
+		}
+		lo, hi := loopSpan(p, "range "+src)
+		if lo < 0 {
+			return false
+		}
+		ok := false
+		for _, e := range p[lo+1 : hi] {
+			if e.Kind == "set" && e.Text == local+"=append("+local+",cloneExpr("+src+"[#1]))" {
+				ok = true
+			}
+		}
+		if !ok || len(p[lo+1:hi].facts()) > 0 {
+			return false
+		}
+	}
+	return true
 }
